@@ -21,6 +21,7 @@ def verifyFull (T : JanetModel.Bytecode.Tables) (r : DefRec) : Bool :=
 /-- the configuration of the current source -/
 def cfg : Cfg :=
   { sites := JanetModel.Gen.UnmarshSites.sites
+    inc := JanetModel.Gen.UnmarshSites.incs
     verify := verifyFull JanetModel.Gen.VmAccess.tables
     pegVerify := JanetModel.PegVerify.pegVerify JanetModel.Gen.PegAccess.tables
     pegSizeChecked := JanetModel.Gen.UnmarshSites.pegSizeChecked
